@@ -98,6 +98,9 @@ func (eng *Engine) VerifyLemma(name string) (em *Emitter, err error) {
 	st := newState()
 	ex.curSt, ex.curPC, ex.entrySt = st, "true", st
 	for _, ax := range eng.CS.Axioms {
+		if ax.Manual {
+			continue
+		}
 		env := &Env{ex: ex, st: st, old: st, vars: map[string]Val{}, pkg: eng.typesPkgOr(ax.Pkg, pkg), where: "axiom " + ax.Name}
 		em.emit("(assert " + env.evalBool(ax.Expr) + ") ; axiom " + ax.Name)
 		em.Assumed["axiom "+ax.Name+": "+ax.Text] = true
@@ -620,4 +623,80 @@ type absIdx struct {
 func isIdentNamed(e CExpr, name string) bool {
 	id, ok := e.(*CIdent)
 	return ok && id.Name == name
+}
+
+// splitForall: "(forall (BINDERS) BODY)" -> BINDERS (without the outer parentheses), BODY
+func splitForall(s string) (binders, body string, ok bool) {
+	const p = "(forall ("
+	if !strings.HasPrefix(s, p) || !strings.HasSuffix(s, ")") {
+		return "", "", false
+	}
+	depth := 1
+	i := len(p)
+	for ; i < len(s) && depth > 0; i++ {
+		switch s[i] {
+		case '(':
+			depth++
+		case ')':
+			depth--
+		}
+	}
+	if depth != 0 || i >= len(s) {
+		return "", "", false
+	}
+	binders = s[len(p) : i-1]
+	body = strings.TrimSpace(s[i : len(s)-1])
+	if !balanced(body) || !balanced(binders) {
+		return "", "", false
+	}
+	return binders, body, true
+}
+
+// useAxiom assumes one explicitly requested instance of a manual axiom: "use name(e1, ..., en)" binds the n leading
+// universally quantified variables of the axiom to the given terms (their type guards included).
+func (ex *Exec) useAxiom(cl *Clause, env *Env, pc string) {
+	call, ok := cl.Expr.(*CCall)
+	id, ok2 := (CExpr)(nil), false
+	if ok {
+		id, ok2 = call.Fun.(*CIdent)
+	}
+	if !ok || !ok2 {
+		env.fail("use: expected name(args)")
+	}
+	name := id.(*CIdent).Name
+	var ax *Lemma
+	for _, a := range ex.eng.CS.Axioms {
+		if a.Name == name {
+			ax = a
+		}
+	}
+	if ax == nil {
+		env.fail("use: no axiom %s", name)
+	}
+	em := ex.em
+	inner := env.with(nil)
+	inner.pkg = ex.eng.typesPkgOr(ax.Pkg, env.pkg)
+	body := ax.Expr
+	var guards []string
+	for i, a := range call.Args {
+		q, isQ := body.(*CQuant)
+		if !isQ || !q.Forall || q.Lo != nil {
+			env.fail("use %s: axiom has fewer than %d leading typed universal quantifiers", name, len(call.Args))
+		}
+		v := env.eval(a)
+		t := inner.resolveType(q.Type)
+		if v.S == "nil" {
+			v = Val{E: em.zero(t).E, S: em.sortOf(t), T: t}
+		}
+		if v.S != em.sortOf(t) {
+			env.fail("use %s: argument %d has sort %s, want %s", name, i+1, v.S, em.sortOf(t))
+		}
+		v.T = t
+		// no type guard: the argument is a well-typed term of the program / specification
+		inner.vars[q.Var] = v
+		body = q.Body
+	}
+	f := inner.evalBool(body)
+	em.assume(pc, implies(and(guards...), f))
+	em.Assumed["axiom "+ax.Name+" (manual, instantiated by use): "+ax.Text] = true
 }
